@@ -64,6 +64,18 @@ def base(ctx, n):
     fam = gen.revisit_family()
     for f in fam:
         out.append([{'part': 'always', 'head': ('choice', ['a', 'b']), 'body': []}, {'part': 'always', 'head': ('norm', 'c', 0), 'body': [('m', ('tel', f))]}])
+    return out + fixed_shared()
+
+
+def fixed_shared():
+    """fixed family: one compound formula of every class in one witness rule (the variants add the same formula written differently)"""
+    a, b = ('atom', 'a'), ('atom', 'b')
+    out = []
+    for f in [('and', a, b), ('or', a, b), ('impr', a, b), ('until', a, b), ('release', a, b), ('since', a, b), ('trigger', a, b), ('until', None, a), ('since', None, a), ('and', ('prev', None, a), ('next', None, b)),
+              ('seqnext', a, b), ('not', ('and', a, b))]:
+        for sg in 'nm':
+            for part in ('always', 'dynamic'):
+                out.append([{'part': 'always', 'head': ('choice', ['a', 'b']), 'body': []}, {'part': part, 'head': ('norm', 'c', 0), 'body': [(sg, ('tel', f))]}])
     return out
 
 
@@ -105,6 +117,12 @@ def variants(rng, p):
         subs = [g for g in gen.subformulas(f)[1:] if g[0] not in ('atom', 'true', 'false', 'initial', 'final')]
         for g in (subs if len(subs) <= 3 else rng.sample(subs, 2)):
             vs.append(('shared-sub', [lang.prog_txt(p + [{'part': rng.choice(['always', 'dynamic']), 'head': ('norm', 'wobs', 0), 'body': [('m', ('tel', g))]}])]))
+        # ... and the same formula written DIFFERENTLY in a further theory atom (a 0-fold next; a conjunction as two elements): two theory atoms, one formula
+        for f in tel[:3]:
+            if f[0] not in ('atom', 'true', 'false', 'initial', 'final'):
+                vs.append(('shared-rewritten', [lang.prog_txt(p + [{'part': 'always', 'head': ('norm', 'wobs', 0), 'body': [('m', ('tel', ('next', 0, f)))]}])]))
+            if f[0] == 'and':
+                vs.append(('shared-rewritten', [lang.prog_txt(p + [{'part': 'always', 'head': ('norm', 'wobs', 0), 'body': [('m', ('tels', [f[1], f[2]]))]}])]))
     return vs
 
 
